@@ -186,6 +186,17 @@ def run_case(case, ctx):
                 tops.remove(n)
             return gone
 
+        def sec_handle_of(n):
+            chain = []
+            x = n
+            while x is not None:
+                chain.append(x)
+                x = x.parent
+            h = f.sections[chain[-1].name]
+            for y in reversed(chain[:-1]):
+                h = h.sections[y.name]
+            return h
+
         def mutate(muts):
             done = 0
             for kind, i, j, k in muts:
@@ -240,6 +251,40 @@ def run_case(case, ctx):
                     node.id, node.handle = h.id, h
                     b["srcs"].append(node)
                     flags.add("mut:addsrc")
+                elif kind == "copysec" and len(secs) > 1:
+                    # an id-keeping copy (the default) of a subtree into another parent of the same file, then one
+                    # more section below the copy: searches meet two sections of one id - both belong to the result
+                    n = secs[i % len(secs)]
+                    sub = set(id(x) for x in n.bfs())
+                    cands = [x for x in secs if id(x) not in sub and x is not n.parent and x.depth < 5 and
+                             not any(c.name == n.name for c in x.children)]
+                    if not cands:
+                        continue
+                    dest = cands[j % len(cands)]
+                    hcopy = dest.handle.copy_section(sec_handle_of(n)) if dest.handle is not None else None
+                    if hcopy is None:
+                        continue
+
+                    def clone(src, parent, depth):
+                        c = Node(src.name, src.typ, parent, depth)
+                        c.id = src.id
+                        parent.children.append(c)
+                        secs.append(c)
+                        for ch in src.children:
+                            clone(ch, c, depth + 1)
+                        return c
+                    croot = clone(n, dest, dest.depth + 1)
+                    croot.handle = hcopy
+                    extra_name = [x for x in NAMES if not any(c.name == x for c in croot.children)]
+                    if extra_name and croot.depth < 5:
+                        node = Node(extra_name[0], TYPES[k % len(TYPES)], croot, croot.depth + 1)
+                        h = hcopy.create_section(node.name, node.typ)
+                        node.id, node.handle = h.id, h
+                        croot.children.append(node)
+                        secs.append(node)
+                    flags.add("mut:copysec")
+                    done += 1
+                    break           # later deletes by id would be ambiguous
                 elif kind == "delsec" and len(secs) > 1:
                     n = secs[i % len(secs)]
                     if n.parent is None and len(top_secs) == 1:
@@ -317,7 +362,7 @@ def run_case(case, ctx):
                     elif sk == "block":
                         roots, obj, tree = blocks[sv]["top"], f.blocks[sv], blocks[sv]["srcs"]
                     elif sk == "section":
-                        roots, obj, tree = None, (sv.handle if phase != "reopened" and q.get("cached") else sec_handle(sv)), secs
+                        roots, obj, tree = None, (sv.handle if phase != "reopened" and q.get("cached") and sv.handle is not None else sec_handle(sv)), secs
                     else:
                         roots, obj, tree = None, (sv.handle if phase != "reopened" and q.get("cached") else src_handle(sv)), None
                     if roots is not None:
@@ -363,15 +408,19 @@ def run_case(case, ctx):
                                       {"q": q, "phase": phase, "want": [n.name for n in exp], "got": [g.name for g in got],
                                        "want_ids": ids(exp)[:6], "got_ids": ids(got)[:6]})
             # ---------------- parents
+            mult = {}
+            for n in secs:
+                mult[n.id] = mult.get(n.id, 0) + 1
             for n in secs:
                 want = n.parent.id if n.parent else None
                 handles = [("lookup", sec_handle(n))]
-                if phase != "reopened":
+                if phase != "reopened" and n.handle is not None:
                     handles.append(("creation", n.handle))
                 found = f.find_sections(lambda s, i=n.id: s.id == i)
-                if len(found) != 1:
-                    ctx.violation("C13/find/file/by-id-count", case, {"n": len(found), "phase": phase})
-                else:
+                if len(found) != mult[n.id]:
+                    # an id-keeping copy shares the id with its original: both are entities of the tree
+                    ctx.violation("C13/find/file/by-id-count", case, {"n": len(found), "want": mult[n.id], "phase": phase})
+                elif mult[n.id] == 1:
                     handles.append(("found", found[0]))
                 for (bi, kind, eid), sec in meta_of.items():
                     if sec is n:
@@ -430,6 +479,8 @@ def run_case(case, ctx):
                                           {"source": n.name, "want": b["id"], "got": gotb, "phase": phase})
             # ---------------- referring lists
             for n in secs:
+                if mult[n.id] > 1:
+                    continue        # which of several sections of one id a metadata link denotes is C05's subject
                 h = sec_handle(n)
                 want = {"blocks": [], "groups": [], "data_arrays": [], "tags": [], "multi_tags": [], "sources": []}
                 kmap = {"block": "blocks", "group": "groups", "array": "data_arrays", "tag": "tags", "mtag": "multi_tags",
@@ -538,7 +589,7 @@ def case_strategy():
         "src_links": st.lists(st.tuples(I, st.sampled_from(["array", "tag", "mtag"]), I, I).map(list), max_size=8),
         "queries": st.lists(query, min_size=3, max_size=12),
         "mutations": st.lists(st.tuples(st.sampled_from(["unmeta", "remeta", "remeta", "unsrc", "addsec", "addsrc", "delsec",
-                                                         "delsrc"]), I, I, I).map(list), max_size=5)})
+                                                         "delsrc", "copysec", "copysec"]), I, I, I).map(list), max_size=5)})
 
 
 def shards(tier, seed):
